@@ -3,6 +3,7 @@ import PyndlDriver.Json
 import PyndlModel.WHModel
 import PyndlModel.WHPy
 import PyndlModel.Generated
+import PyndlDriver.ModelCopies
 
 open Lean
 
@@ -156,9 +157,39 @@ def opDictWh (j : Json) : M Json := do
     pure (r.setObjVal! "result_type"
       (Json.str (if getBoolD j "make_data_array" false then "DataArray" else "WeightDict")))
 
+/-- op wh_chain: `whChainRunD` (= `Pyndl.whChainRun`, PyndlProofs/DriverBridge.lean
+    `whChainRunD_eq`): a chain of `wh.wh` calls, every call continuing from the
+    matrix the previous one returned (`weights=`), through the model's own
+    continuation branch of `whModel` (label checks, re-alignment, extension).
+    request: as op `wh` (flavour, policy, chunk, eta | beta1/beta2/lambda, cue_vectors, outcome_vectors,
+             optional init) with "pieces": [[[cues,outcomes],…],…] instead of "events"
+    reply:   {"rows":[…],"cols":[…],"cells":[[i,j,"num/den"],…],"bits":n}
+          or {"err":"Raised:…","failed_piece":k} -/
+def opWhChain (j : Json) : M Json := do
+  let fl ← match (← getStr j "flavour") with
+    | "r2r" => pure WhFlavour.r2r | "b2r" => pure WhFlavour.b2r | "r2b" => pure WhFlavour.r2b
+    | _ => .error "bad flavour"
+  let pieces ← getPieces j
+  let p ← getPolicy j "policy"
+  let ct ← getTableOpt j "cue_vectors"
+  let ot ← getTableOpt j "outcome_vectors"
+  let W0 ← getLWOpt j "init"
+  let one : TR := TR.ofRat 1
+  let parts : List WhPartD := pieces.map (fun es => ⟨p, getNatD j "chunk" 10, es⟩)
+  let run (ps : List WhPartD) :=
+    whChainRunD fl (trD j "eta" 0) (trD j "beta1" 0) (trD j "beta2" 0) (trD j "lambda" one) ct ot W0 ps
+  match run parts with
+  | .error e =>
+    let k := ((List.range parts.length).find? (fun k =>
+      match run (parts.take (k + 1)) with | .error _ => true | .ok _ => false)).getD 0
+    pure ((jErr e).setObjVal! "failed_piece" (jNat k))
+  | .ok none => .error "wh_chain: no call"
+  | .ok (some w) => pure (lwJsonRC w)
+
 def handleWH? (op : String) (j : Json) : Option (M Json) :=
   if op == "wh" then some (opWh j)
   else if op == "kernel_wh" then some (opKernelWh j)
+  else if op == "wh_chain" then some (opWhChain j)
   else if op == "wh_numpy" then some (opWhNumpy j)
   else if op == "dict_wh" then some (opDictWh j)
   else none
